@@ -1,2 +1,89 @@
-(* C24 — placeholder while the pipeline is brought up *)
-From FH Require Import Model.Base Model.ByteRange Model.FsResp Spec.FsRangeSpec.
+(* C24 — FS responses carry the file's bytes, ranges and validators correctly.
+   Statements only; proofs live in Proof/ByteRangeProof.v.
+   Model: Model/ByteRange.v (ParseByteRange on the C30 integer model) and Model/FsResp.v (the decision of
+   fsHandler.handleRequest for an existing regular file).  Spec: Spec/FsRangeSpec.v (RFC 9110 byte ranges restricted
+   to one range with int-sized numbers; the expected response).  `wf_bytes` = every byte is < 256. *)
+From FH Require Import Model.Base Gen.GenC24 Model.Ints Model.DateIP Spec.HttpDate Model.ByteRange Model.FsResp
+  Spec.FsRangeSpec Proof.ByteRangeProof.
+Open Scope Z_scope.
+
+(* every range ParseByteRange accepts satisfies 0 <= start <= end < length — for ALL byte strings and ALL lengths
+   (also 0 and negative lengths: nothing is accepted then) *)
+Theorem C24_range_invariant : forall r n s e, wf_bytes r ->
+  ParseByteRange r n = BROk s e -> 0 <= s /\ s <= e /\ e < n.
+Proof. exact range_invariant. Qed.
+Print Assumptions C24_range_invariant.
+
+(* ParseByteRange accepts exactly "bytes=a-b" / "bytes=a-" / "bytes=-k" with the RFC 9110 14.1.2 meaning
+   (b clamped to length-1, the last k bytes, k = 0 and start >= length rejected) and nothing else *)
+Theorem C24_range_exact : forall r n, wf_bytes r ->
+  ParseByteRange r n = match spec_range r n with RSat s e => BROk s e | _ => BRErr end.
+Proof. exact range_exact. Qed.
+Print Assumptions C24_range_exact.
+
+(* 206 with exactly the requested byte slice and a matching Content-Range for a satisfiable single range
+   (GET, byte ranges enabled, file newer than If-Modified-Since); the slice lies inside the file *)
+Theorem C24_206_slice : forall size mtime compress range ims ae compressible zlen s e,
+  wf_bytes range -> wf_bytes ims -> not_newer ims mtime = false -> range <> [] -> spec_range range size = RSat s e ->
+  fs_handle size mtime true compress false range ims ae compressible zlen =
+  FsOut 206 (content_range s e size) (e - s + 1) (BSlice s (e - s + 1)) false (spec_format_http_date mtime) true
+  /\ 0 <= s /\ s <= e /\ e < size.
+Proof. intros. now apply range_206. Qed.
+Print Assumptions C24_206_slice.
+
+(* 416 for an unsatisfiable range (including the zero-length suffix range) — and for a malformed one *)
+Theorem C24_416_unsatisfiable : forall size mtime compress range ims ae compressible zlen isHead,
+  wf_bytes range -> wf_bytes ims -> not_newer ims mtime = false -> range <> [] ->
+  (spec_range range size = RUnsat \/ spec_range range size = RInvalid) ->
+  fo_status (fs_handle size mtime true compress isHead range ims ae compressible zlen) = 416.
+Proof. intros. now apply range_416. Qed.
+Print Assumptions C24_416_unsatisfiable.
+
+(* 304 exactly when the file is not newer than If-Modified-Since, to the second *)
+Theorem C24_304_iff_not_newer : forall size mtime compress range ims ae compressible zlen ranges isHead,
+  wf_bytes ims ->
+  (fo_status (fs_handle size mtime ranges compress isHead range ims ae compressible zlen) = 304
+   <-> not_newer ims mtime = true).
+Proof. intros. now apply status_304_iff. Qed.
+Print Assumptions C24_304_iff_not_newer.
+
+(* otherwise 200 with the full content of the served variant (the file itself unless the gzip variant was chosen:
+   then its length is the codec variable zlen and Content-Encoding is set; that it decodes to the file is checked by
+   the harness with the real decoder) *)
+Theorem C24_200_full : forall size mtime compress range ims ae compressible zlen ranges,
+  wf_bytes ims -> not_newer ims mtime = false -> (range = [] \/ ranges = false) ->
+  let gz := match range with [] => compress && hasAcceptEncoding ae strGzip | _ => false end && compressible in
+  let len := if gz then zlen else size in
+  fs_handle size mtime ranges compress false range ims ae compressible zlen =
+  FsOut 200 [] len (BSlice 0 len) gz (spec_format_http_date mtime) ranges.
+Proof. intros size mtime compress range ims ae compressible zlen ranges Hi Hn Hc. exact (full_200 size mtime compress range ims ae compressible zlen Hi ranges Hn Hc). Qed.
+Print Assumptions C24_200_full.
+
+(* HEAD carries the same headers as GET and no body *)
+Theorem C24_head_same_headers_no_body : forall size mtime compress range ims ae compressible zlen ranges,
+  let g := fs_handle size mtime ranges compress false range ims ae compressible zlen in
+  let h := fs_handle size mtime ranges compress true range ims ae compressible zlen in
+  fo_status h = fo_status g /\ fo_contentRange h = fo_contentRange g /\ fo_contentLength h = fo_contentLength g
+  /\ fo_gzip h = fo_gzip g /\ fo_lastModified h = fo_lastModified g /\ fo_acceptRanges h = fo_acceptRanges g
+  /\ fo_body h = BNone.
+Proof. intros. apply head_same. Qed.
+Print Assumptions C24_head_same_headers_no_body.
+
+(* non-vacuity; the repaired defect: a zero-length suffix range is rejected *)
+Example C24_ex_ranges :
+  ParseByteRange (s2b "bytes=-0") 100 = BRErr /\ ParseByteRange (s2b "bytes=-00") 100 = BRErr
+  /\ ParseByteRange (s2b "bytes=-1") 100 = BROk 99 99 /\ ParseByteRange (s2b "bytes=-500") 100 = BROk 0 99
+  /\ ParseByteRange (s2b "bytes=0-0") 1 = BROk 0 0 /\ ParseByteRange (s2b "bytes=5-1000") 100 = BROk 5 99
+  /\ ParseByteRange (s2b "bytes=99-") 100 = BROk 99 99 /\ ParseByteRange (s2b "bytes=100-") 100 = BRErr
+  /\ ParseByteRange (s2b "bytes=-5") 0 = BRErr /\ ParseByteRange (s2b "bytes=0-") 0 = BRErr
+  /\ ParseByteRange (s2b "bytes=0-1,3-4") 100 = BRErr /\ ParseByteRange (s2b "bytes=2-1") 100 = BRErr
+  /\ spec_range (s2b "bytes=-0") 100 = RUnsat /\ spec_range (s2b "bytes=2-1") 100 = RInvalid
+  /\ spec_range (s2b "bytes=0-99999999999999999999") 100 = RInvalid.
+Proof. vm_compute. repeat split; reflexivity. Qed.
+Example C24_ex_fs :
+  fo_status (fs_handle 100 1700000000 true false false (s2b "bytes=-0") [] [] false 0) = 416
+  /\ fs_handle 100 1700000000 true false false (s2b "bytes=10-19") [] [] false 0 =
+     FsOut 206 (s2b "bytes 10-19/100") 10 (BSlice 10 10) false (s2b "Tue, 14 Nov 2023 22:13:20 GMT") true
+  /\ fo_status (fs_handle 100 1700000000 true false false (s2b "bytes=10-19") (s2b "Tue, 14 Nov 2023 22:13:20 GMT") [] false 0) = 304
+  /\ fo_status (fs_handle 100 1700000000 true false false (s2b "bytes=10-19") (s2b "Tue, 14 Nov 2023 22:13:19 GMT") [] false 0) = 206.
+Proof. vm_compute. repeat split; reflexivity. Qed.
